@@ -15,6 +15,7 @@ import (
 	"github.com/element-of-surprise/coercion/workflow/utils/walk"
 	"pgregory.net/rapid"
 
+	"verifharness/lab"
 	"verifharness/vprop"
 )
 
@@ -45,6 +46,8 @@ type WalkCase struct {
 	Plan TreePlan
 	// Stop is the position at which the consumer stops (-1: never).
 	Stop int
+	// AllStops: every stop position of the tree (and the full walk) is tried, each on a fresh iterator.
+	AllStops bool `json:",omitempty"`
 	// Again: the same iterator value is ranged over a second time, completely.
 	Again bool
 }
@@ -202,6 +205,72 @@ func objName(o workflow.Object) string {
 	return fmt.Sprintf("%T", o)
 }
 
+// walkOne performs one walk (stopped at position stop, -1: never), optionally followed by a second full walk over the same
+// iterator value, and compares with the reference enumeration. It returns false after recording a violation.
+func walkOne(p *workflow.Plan, ref []refItem, stop int, again bool, res *vprop.Result) bool {
+	var got []walk.Item
+	if stop >= len(ref) {
+		stop = -1
+	}
+	// one iterator value is used for everything below: an iter.Seq may be ranged over any number of times, and
+	// "walking a plan yields ... every ... object exactly once" holds for each walk, also after an earlier walk over the
+	// same value was stopped early
+	seq := walk.Plan(p)
+	for it := range seq {
+		got = append(got, it)
+		if stop >= 0 && len(got)-1 == stop {
+			break
+		}
+	}
+	if again {
+		n := 0
+		for it := range seq {
+			if n >= len(ref) || it.Value != ref[n].v {
+				res.Fail("C19/second-walk", "second walk over the same iterator value (after a first walk that stopped at %d): item %d is %v, reference has %d items", stop, n, it.Value != nil, len(ref))
+				return false
+			}
+			n++
+		}
+		if n != len(ref) {
+			res.Fail("C19/second-walk", "second walk over the same iterator value (after a first walk that stopped at %d) yielded %d items, reference enumeration has %d", stop, n, len(ref))
+			return false
+		}
+	}
+
+	want := ref
+	if stop >= 0 {
+		want = ref[:stop+1]
+		if len(got) != stop+1 {
+			res.Fail("C19/stop", "consumer stopped at position %d but walk yielded %d items (want %d)", stop, len(got), stop+1)
+			return false
+		}
+	}
+	if len(got) != len(want) {
+		res.Fail("C19/count", "walk yielded %d items, reference enumeration has %d", len(got), len(want))
+		return false
+	}
+	for i := range want {
+		if got[i].Value != want[i].v {
+			res.Fail("C19/order", "item %d is %s, reference says %s", i, objName(got[i].Value), objName(want[i].v))
+			return false
+		}
+	}
+	// chains are compared after the whole walk was collected
+	for i := range want {
+		if len(got[i].Chain) != len(want[i].chain) {
+			res.Fail("C19/chain", "item %d (%s): chain length %d, want %d", i, objName(want[i].v), len(got[i].Chain), len(want[i].chain))
+			return false
+		}
+		for j := range want[i].chain {
+			if got[i].Chain[j] != want[i].chain[j] {
+				res.Fail("C19/chain", "item %d (%s): chain[%d] is %s, want %s", i, objName(want[i].v), j, objName(got[i].Chain[j]), objName(want[i].chain[j]))
+				return false
+			}
+		}
+	}
+	return true
+}
+
 func checkWalk(c WalkCase) (res vprop.Result) {
 	p := buildTree(c.Plan)
 	ref := refWalk(p)
@@ -216,10 +285,15 @@ func checkWalk(c WalkCase) (res vprop.Result) {
 		}
 	}
 	res.NonTrivial = len(c.Plan.Blocks) >= 2 && groupsInBlocks >= 2
-	if c.Stop >= 0 {
+	switch {
+	case c.AllStops:
+	case c.Stop >= 0 && c.Stop < len(ref):
 		res.Label("early-stop")
-	} else {
+	default:
 		res.Label("full-walk")
+	}
+	if c.Again {
+		res.Label("same-iterator-walked-again")
 	}
 
 	defer func() {
@@ -228,82 +302,41 @@ func checkWalk(c WalkCase) (res vprop.Result) {
 		}
 	}()
 
-	var got []walk.Item
-	stop := c.Stop
-	if stop >= len(ref) {
-		stop = -1
-	}
-	// one iterator value is used for everything below: an iter.Seq may be ranged over any number of times, and
-	// "walking a plan yields ... every ... object exactly once" holds for each walk, also after an earlier walk over the
-	// same value was stopped early
-	seq := walk.Plan(p)
-	for it := range seq {
-		got = append(got, it)
-		if stop >= 0 && len(got)-1 == stop {
-			break
-		}
-	}
-	if c.Again {
-		res.Label("same-iterator-walked-again")
-		n := 0
-		for it := range seq {
-			if n >= len(ref) || it.Value != ref[n].v {
-				res.Fail("C19/second-walk", "second walk over the same iterator value (after a first walk that stopped at %d): item %d is %v, reference has %d items", stop, n, it.Value != nil, len(ref))
+	if c.AllStops {
+		// "every early-stop position": all of them, for this tree, plus the full walk
+		res.Label("all-stop-positions-of-the-tree")
+		for stop := -1; stop < len(ref); stop++ {
+			if !walkOne(p, ref, stop, c.Again, &res) {
 				return res
 			}
-			n++
 		}
-		if n != len(ref) {
-			res.Fail("C19/second-walk", "second walk over the same iterator value (after a first walk that stopped at %d) yielded %d items, reference enumeration has %d", stop, n, len(ref))
-			return res
-		}
-	}
-
-	want := ref
-	if stop >= 0 {
-		want = ref[:stop+1]
-		if len(got) != stop+1 {
-			res.Fail("C19/stop", "consumer stopped at position %d but walk yielded %d items (want %d)", stop, len(got), stop+1)
-			return res
-		}
-	}
-	if len(got) != len(want) {
-		res.Fail("C19/count", "walk yielded %d items, reference enumeration has %d", len(got), len(want))
+		vprop.Count("stop_positions_enumerated", int64(len(ref)+1))
 		return res
 	}
-	for i := range want {
-		if got[i].Value != want[i].v {
-			res.Fail("C19/order", "item %d is %s, reference says %s", i, objName(got[i].Value), objName(want[i].v))
-			return res
-		}
-	}
-	// chains are compared after the whole walk was collected
-	for i := range want {
-		if len(got[i].Chain) != len(want[i].chain) {
-			res.Fail("C19/chain", "item %d (%s): chain length %d, want %d", i, objName(want[i].v), len(got[i].Chain), len(want[i].chain))
-			return res
-		}
-		for j := range want[i].chain {
-			if got[i].Chain[j] != want[i].chain[j] {
-				res.Fail("C19/chain", "item %d (%s): chain[%d] is %s, want %s", i, objName(want[i].v), j, objName(got[i].Chain[j]), objName(want[i].chain[j]))
-				return res
-			}
-		}
-	}
+	walkOne(p, ref, c.Stop, c.Again, &res)
 	return res
 }
 
-func TestC19(t *testing.T) {
-	vprop.Run(t, vprop.Spec[WalkCase]{
+func c19Spec() vprop.Spec[WalkCase] {
+	return vprop.Spec[WalkCase]{
 		ID: "C19",
 		Gen: func(t *rapid.T) WalkCase {
 			c := WalkCase{Plan: genTreePlan(t), Stop: -1}
-			if rapid.IntRange(0, 2).Draw(t, "stopMode") > 0 {
-				c.Stop = rapid.IntRange(0, 60).Draw(t, "stop")
+			switch lab.Rng(t, 0, 3, "stopMode") {
+			case 0: // full walk
+			case 1:
+				c.AllStops = true
+			default:
+				c.Stop = lab.Rng(t, 0, 220, "stop") // trees have up to ~200 objects; beyond the end = full walk
 			}
 			c.Again = rapid.Bool().Draw(t, "again")
 			return c
 		},
 		Check: checkWalk,
-	})
+	}
 }
+
+func TestC19(t *testing.T) { vprop.Run(t, c19Spec()) }
+
+// FuzzC19 is the byte-driven arm (thorough tier), see vprop.Fuzz.
+func FuzzC19(f *testing.F) { vprop.Fuzz(f, c19Spec()) }
